@@ -136,7 +136,13 @@ def run_schedule(server, sched, k, instances, results):
             if kind == "health":
                 st, body = server.get("/health")
             elif kind == "valid":
-                st, body = server.post(json.dumps(gen.render(instances[r])))
+                payload = json.dumps(gen.render(instances[r]))
+                if (k + len(r)) % 3 == 0:
+                    # a large request (insignificant whitespace after the document, 2.5 MB in total): valid
+                    # instances are not limited in size
+                    payload += " " * (2500000 - len(payload))
+                    rec["large"] = True
+                st, body = server.post(payload)
             elif kind == "malformed":
                 st, body = server.post(MALFORMED[k % len(MALFORMED)])
             else:
